@@ -59,11 +59,16 @@ def print_module(m, ctx, generic: bool, **kw) -> str:
     return s.getvalue()
 
 
+EXTRA_DIALECTS: list = []  # harness-defined dialects (C05 format test ops) loaded into every fresh Context
+
+
 def parse_fresh(text: str, name="<rt>"):
     """Parse in a fresh Context with an empty resource table (= a fresh process)."""
     from xdsl.parser import Parser
     _blob_table().clear()
     ctx = new_ctx()
+    for d in EXTRA_DIALECTS:
+        ctx.load_dialect(d)
     m = Parser(ctx, text, name).parse_module()
     return ctx, m
 
